@@ -8,80 +8,8 @@ use wasm_encoder as we;
 use wasm_encoder::reencode::{Reencode, RoundtripReencoder};
 use wasmparser::{Operator, WasmFeatures};
 
-pub fn walrus_features(only_stable: bool) -> WasmFeatures {
-    let mut f = WasmFeatures::empty();
-    f.insert(WasmFeatures::FLOATS); f.insert(WasmFeatures::MUTABLE_GLOBAL); f.insert(WasmFeatures::SATURATING_FLOAT_TO_INT);
-    f.insert(WasmFeatures::SIGN_EXTENSION); f.insert(WasmFeatures::MULTI_VALUE); f.insert(WasmFeatures::REFERENCE_TYPES);
-    f.insert(WasmFeatures::BULK_MEMORY); f.insert(WasmFeatures::SIMD); f.insert(WasmFeatures::RELAXED_SIMD); f.insert(WasmFeatures::TAIL_CALL);
-    if !only_stable { f.insert(WasmFeatures::MULTI_MEMORY); f.insert(WasmFeatures::MEMORY64); f.insert(WasmFeatures::THREADS); }
-    f
-}
-
-const NLOCALS: u32 = 7;
-/// padding that makes the test function the largest one and uses every local, so that
-/// walrus's renumbering (size-sorted functions, used-locals compaction) is the identity here
-fn padding() -> Vec<we::Instruction<'static>> {
-    let mut v = vec![];
-    for l in 0..NLOCALS { v.push(we::Instruction::LocalGet(l)); v.push(we::Instruction::Drop); }
-    for _ in 0..6 { v.push(we::Instruction::I32Const(7)); v.push(we::Instruction::Drop); }
-    v
-}
-
-/// The universe module, built in walrus's canonical order (types sorted, imports first,
-/// functions by decreasing size, locals grouped by type in ValType order).
-pub fn universe(test_body: &[we::Instruction]) -> Vec<u8> {
-    use we::ValType::*;
-    let mut m = we::Module::new();
-    let mut t = we::TypeSection::new();
-    t.function([], []); t.function([], [I32]); t.function([I32], [I32]); t.function([I32, I64], []);
-    m.section(&t);
-    let mut i = we::ImportSection::new(); i.import("env", "imp", we::EntityType::Function(0)); m.section(&i);
-    let mut f = we::FunctionSection::new(); f.function(0); f.function(2); f.function(3); m.section(&f);
-    let mut tb = we::TableSection::new();
-    tb.table(we::TableType { element_type: we::RefType::FUNCREF, table64: false, minimum: 4, maximum: None, shared: false });
-    tb.table(we::TableType { element_type: we::RefType::FUNCREF, table64: false, minimum: 2, maximum: Some(8), shared: false });
-    tb.table(we::TableType { element_type: we::RefType::EXTERNREF, table64: false, minimum: 1, maximum: None, shared: false });
-    m.section(&tb);
-    let mut ms = we::MemorySection::new();
-    ms.memory(we::MemoryType { minimum: 1, maximum: None, memory64: false, shared: false, page_size_log2: None });
-    ms.memory(we::MemoryType { minimum: 1, maximum: None, memory64: true, shared: false, page_size_log2: None });
-    ms.memory(we::MemoryType { minimum: 1, maximum: Some(2), memory64: false, shared: true, page_size_log2: None });
-    m.section(&ms);
-    let mut g = we::GlobalSection::new();
-    g.global(we::GlobalType { val_type: I32, mutable: true, shared: false }, &we::ConstExpr::i32_const(1));
-    g.global(we::GlobalType { val_type: I64, mutable: true, shared: false }, &we::ConstExpr::i64_const(2));
-    g.global(we::GlobalType { val_type: F32, mutable: true, shared: false }, &we::ConstExpr::f32_const(3.0));
-    g.global(we::GlobalType { val_type: F64, mutable: true, shared: false }, &we::ConstExpr::f64_const(4.0));
-    m.section(&g);
-    let mut e = we::ExportSection::new();
-    e.export("f0", we::ExportKind::Func, 0); e.export("f1", we::ExportKind::Func, 1); e.export("f2", we::ExportKind::Func, 2); e.export("f3", we::ExportKind::Func, 3);
-    for k in 0..3 { e.export(&format!("t{}", k), we::ExportKind::Table, k); e.export(&format!("m{}", k), we::ExportKind::Memory, k); }
-    for k in 0..4 { e.export(&format!("g{}", k), we::ExportKind::Global, k); }
-    m.section(&e);
-    let mut el = we::ElementSection::new();
-    for _ in 0..4 { el.passive(we::Elements::Functions(&[0, 1])); }
-    m.section(&el);
-    m.section(&we::DataCountSection { count: 4 });
-    let mut c = we::CodeSection::new();
-    let mut tf = we::Function::new([(1, I32), (1, I64), (1, F32), (1, F64), (1, V128), (1, we::ValType::Ref(we::RefType::FUNCREF)), (1, we::ValType::Ref(we::RefType::EXTERNREF))]);
-    for ins in padding() { tf.instruction(&ins); }
-    for ins in test_body { tf.instruction(ins); }
-    tf.instruction(&we::Instruction::End);
-    c.function(&tf);
-    let mut h1 = we::Function::new([]); h1.instruction(&we::Instruction::LocalGet(0)); h1.instruction(&we::Instruction::End); c.function(&h1);
-    let mut h2 = we::Function::new([]); h2.instruction(&we::Instruction::End); c.function(&h2);
-    m.section(&c);
-    let mut d = we::DataSection::new();
-    for k in 0..4u8 { d.passive([k, k + 1]); }
-    m.section(&d);
-    m.finish()
-}
-
-fn const_of(c: u8) -> we::Instruction<'static> {
-    match c { 0 => we::Instruction::I32Const(0), 1 => we::Instruction::I64Const(0), 2 => we::Instruction::F32Const(0.0), 3 => we::Instruction::F64Const(0.0),
-        4 => we::Instruction::V128Const(0), 5 => we::Instruction::RefNull(we::HeapType::Abstract { shared: false, ty: we::AbstractHeapType::Func }),
-        _ => we::Instruction::RefNull(we::HeapType::Abstract { shared: false, ty: we::AbstractHeapType::Extern }) }
-}
+use crate::env::{universe as universe_p, padding, walrus_features, const_of, Profile};
+fn universe(b: &[we::Instruction]) -> Vec<u8> { universe_p(Profile::Full, b) }
 
 fn reenc(op: &Operator<'static>) -> Option<we::Instruction<'static>> { RoundtripReencoder.instruction(op.clone()).ok() }
 
